@@ -834,7 +834,9 @@ class Interp:
     def np_attr(self, name, node):
         I = self
         el = NP.elementwise
-        wo = NP.with_out
+
+        def wo(result, out, **k):
+            return NP.with_out(result, out)
 
         def recip(a, out=None, **k):
             if isinstance(a, AArr) and a.dtype == "int":      # integer reciprocal is integer division
@@ -873,7 +875,14 @@ class Interp:
                 return inner(a, *rest, **kw)
             return numeric
         if name in simple and simple[name] is not None:
-            return simple[name]
+            f0 = simple[name]
+
+            def strict(*a, _f=f0, **k):
+                bad = sorted(x for x in k if x not in ("out", "dtype", "casting", "order", "subok", "axis", "keepdims"))
+                if bad:
+                    raise AnalysisAbort(f"np.{name}: keyword(s) {bad} are not modelled")
+                return _f(*a, **k)
+            return strict
         if name == "ndarray":
             return NDARRAY
         if name == "newaxis":
